@@ -101,6 +101,31 @@ def run(ctx):
         ctx.extra.setdefault("discarded_outside_envelope", {})[mode] = disc
         ctx.sample({"kind": mode, "record": recs[0]})
 
+    # ---- micro-step refinement: every internal step of the real solver must be an action of Vpsc.tla (drift only)
+    jobs = [{"script": "d_vpsc.py", "stdin_obj": {"seed": seed * 1000 + 900 + k, "count": (480 if quick else 8000) // core.NCPU, "mode": "steps"}}
+            for k in range(core.NCPU)]
+    srecs = []
+    skipped = None
+    for out in core.run_drivers_parallel(jobs):
+        srecs += out["records"]
+        skipped = out.get("skipped") or skipped
+    if srecs:
+        drift, st = core.validate_records("VpscSteps", "VpscSteps.cfg", srecs, expect="init", per_shard=60)
+        ctx.states += st["distinct"]
+        ctx.transitions += st["generated"]
+        kinds = {}
+        for r in srecs:
+            for e in r["ev"]:
+                kinds[e["a"]] = kinds.get(e["a"], 0) + 1
+        ctx.extra["micro_step_refinement"] = {"solves_traced": len(srecs), "events_by_action": kinds,
+                                              "solves_explained_step_by_step_by_Vpsc.tla": len(srecs) - len({d[0] for d in drift}),
+                                              "spec_drift": len({d[0] for d in drift})}
+        if drift:
+            ctx.notes.append("spec drift: %d traced solves contain a step the model does not explain (first: %s)"
+                             % (len({d[0] for d in drift}), json.dumps(srecs[drift[0][0]])[:400]))
+    else:
+        ctx.extra["micro_step_refinement"] = {"skipped": skipped or "no records"}
+
     cnt = 320 if quick else 4000
     jobs = [{"script": "d_vpsc.py", "stdin_obj": {"seed": seed * 1000 + 500 + k, "count": cnt // core.NCPU, "mode": "large"}}
             for k in range(core.NCPU)]
